@@ -521,8 +521,8 @@ Definition exact_op (o : aop) (x y : xq) : option xq :=
   match o with
   | OAdd => Some (xq_add x y) | OSub => Some (xq_sub x y) | ORsub => Some (xq_sub y x)
   | OMul => Some (xq_mul x y) | ODiv => xq_div x y | ORdiv => xq_div y x
-  | OPow => match xq_to_Z y with Some k => xq_pow x k | None => None end
-  | ORpow => match xq_to_Z x with Some k => xq_pow y k | None => None end
+  | OPow => match xq_to_Z y with Some k => if Z.leb (Z.abs k) POW_BOUND then xq_pow x k else None | None => None end
+  | ORpow => match xq_to_Z x with Some k => if Z.leb (Z.abs k) POW_BOUND then xq_pow y k else None | None => None end
   end.
 Definition opd_prec (o : opd) : option positive := match o with DMpfr p _ => Some p | _ => None end.
 Definition result_prec (ps : positive) (other : opd) : positive :=
